@@ -244,6 +244,15 @@ def make_handler(rt, py, cs, sc, log):
                         k += 1
                 for r in responses[k:]:
                     yield r
+            elif cs and sc.get("interleave") == "first":
+                # reads what the script says it needs (one request per response), answers, and ends (status below) WITHOUT
+                # waiting for the end of the request stream
+                got = []
+                entry[1] = ("many", got)
+                it = request.__aiter__()
+                for r in responses:
+                    got.append(rt.snap(await it.__anext__()))
+                    yield r
             elif cs and sc.get("interleave"):
                 got = []
                 entry[1] = ("many", got)
@@ -341,6 +350,14 @@ def arg_object(rt, case, got_reply=None):
                 await got_reply.wait()
                 got_reply.clear()
         return conv(), snaps
+    if kind == "open":
+        # the caller's request stream yields its requests and then STAYS OPEN (an AsyncChannel nobody closed, a slow producer):
+        # the background sending task is still pending when the handler's status arrives
+        async def op():
+            for v in vals:
+                yield v
+            await asyncio.Event().wait()
+        return op(), snaps
     if kind == "agen":
         async def ag():
             for v in vals:
@@ -361,7 +378,7 @@ async def real_call(rt, case):
     ckw, ckw_ids = kw_objects(case.get("kwargs", {}).get("call", [0, 0, 0]), 1)
     obs = {"rec": rec, "log": log, "server_seen": server_seen, "msgs": [], "end": ("done",), "kw_objs": (skw, ckw),
            "kw_ids": (skw_ids, ckw_ids)}
-    limit = CONV_TIMEOUT if case.get("iter_kind") == "conversation" else CALL_TIMEOUT
+    limit = CONV_TIMEOUT if case.get("iter_kind") in ("conversation", "open") else CALL_TIMEOUT
     got_reply = asyncio.Event()
 
     async def body():
@@ -390,7 +407,10 @@ async def real_call(rt, case):
                 if obs.get("shape") == "single":
                     obs["msgs"] = []
             except asyncio.CancelledError:
-                raise
+                if case.get("iter_kind") != "open":
+                    raise
+                # nobody cancelled this call: a CancelledError here replaced the handler's status on its way to the caller
+                obs["end"] = ("exc", "CancelledError surfaced to the caller instead of the handler's GRPCError")
             except Exception as e:  # noqa
                 obs["end"] = ("exc", f"{type(e).__name__}: {e}")
                 if obs.get("shape") == "single":
@@ -600,6 +620,15 @@ def call_cases(ctx, rt, i, thorough):
             c["iter_kind"] = "conversation"
             c["schedule"] = "request i+1 is yielded by the caller's async generator only after response i was received; handler yields response i on reading request i"
             cases.append(c)
+    # the handler of a bidirectional method ends with a status while the caller's request stream is still open (the stub's sending
+    # task is pending): the caller must get exactly that status (seeded change C11-6: the clean-up path awaits the cancelled sender)
+    if m.cs and m.ss and not rt.dup_py(i):
+        for n, st in ((1, 5), (2, 16)) if thorough else ((1, 5),):
+            sc = {"gen": True, "resp": resp(n), "status": st, "interleave": "first"}
+            c = base(n, scripts={py: sc}, feature=f"status {st} after {n} responses while the request stream is still open")
+            c["iter_kind"] = "open"
+            c["corr_reqonly"] = True     # how many already-yielded responses survive the stream reset is transport behaviour: oracle only
+            cases.append(c)
     # statuses: before any response, after k yields
     statuses = [1, 3, 5, 7, 9, 12, 13, 14, 16] if thorough else [rng.choice([1, 3, 5, 7, 13, 16]), 12]
     for st in statuses:
@@ -700,7 +729,7 @@ def model_call_expr(rt, case, snaps):
     _, sids = kw_ids(kwc["stub"], 0)
     _, cids = kw_ids(kwc["call"], 1)
     arg = ("(ArgIter [" + "; ".join(msg_lit(s) for s in snaps) + "])") if case["iter"] else f"(ArgOne {msg_lit(snaps[0])})"
-    f = "cv_obs_reqonly" if case.get("reqonly") else "cv_obs_notrace" if case.get("notrace") else "cv_obs"
+    f = "cv_obs_reqonly" if (case.get("reqonly") or case.get("corr_reqonly")) else "cv_obs_notrace" if case.get("notrace") else "cv_obs"
     return (f"{f} (call {rt.coq_name} {impl_lit(case['scripts'], rt)} {kw_lit(sids)} {coq_str(case['py'])} {arg} {kw_lit(cids)})")
 
 
@@ -738,7 +767,7 @@ def expected_call_cv(rt, case, obs):
     ids = observed_kw_ids(kw, *obs["kw_objs"], *obs["kw_ids"])
     rinfo = cl([cs_(name), cz(card_num(cardv)), cs_(rt.typename(rtype)), cs_(rt.typename(ptype)),
                 cl([cv_optz(i) for i in ids])])
-    if case.get("reqonly"):
+    if case.get("reqonly") or case.get("corr_reqonly"):
         return rinfo
     end = obs["end"]
     cres = cv_cres(obs["msgs"], end)
@@ -832,7 +861,13 @@ def oracle_call(rt, case, obs, snaps):
         want_msgs = []
     if obs["end"] != want_end:
         why.append(f"caller ended with {obs['end']}, handler ended with {want_end}")
-    if obs["msgs"] != want_msgs:
+    if case.get("iter_kind") == "open" and sc["status"] is not None:
+        # the request stream was still open when the handler ended with a status: grpclib resets the HTTP/2 stream, and responses
+        # already yielded may or may not have been handed to the caller by then (transport behaviour, outside the model): what the
+        # property asks is that the STATUS reaches the caller and that nothing else than the handler's responses, in order, does
+        if obs["msgs"] != want_msgs[:len(obs["msgs"])]:
+            why.append(f"caller received {obs['msgs'][:3]}, not a prefix of what the handler produced {want_msgs[:3]}")
+    elif obs["msgs"] != want_msgs:
         why.append(f"caller received {len(obs['msgs'])} message(s) {obs['msgs'][:3]}, handler produced {len(want_msgs)} {want_msgs[:3]}")
     return why
 
